@@ -107,33 +107,77 @@ def parseWDay (wday : List Char) : Py.R WDay :=
         | some n => if n == 0 then .error .ValueError else .ok (k, some n)
         | none => .error .ValueError
 
-/-- dispatch of `getattr(self, "_handle_" + name)`; `.error .AttributeError` = unknown name -/
-def handle (a : RArgs) (name value : List Char) : Py.R RArgs :=
-  let il (f : RArgs → List Int → RArgs) : Py.R RArgs := do let l ← intList value; .ok (f a l)
-  if name == lit "INTERVAL" then do let v ← int! value; .ok { a with interval := some v }
-  else if name == lit "COUNT" then do let v ← int! value; .ok { a with count := some v }
-  else if name == lit "BYSETPOS" then il (fun a l => { a with bysetpos := some l })
-  else if name == lit "BYMONTH" then il (fun a l => { a with bymonth := some l })
-  else if name == lit "BYMONTHDAY" then il (fun a l => { a with bymonthday := some l })
-  else if name == lit "BYYEARDAY" then il (fun a l => { a with byyearday := some l })
-  else if name == lit "BYEASTER" then il (fun a l => { a with byeaster := some l })
-  else if name == lit "BYWEEKNO" then il (fun a l => { a with byweekno := some l })
-  else if name == lit "BYHOUR" then il (fun a l => { a with byhour := some l })
-  else if name == lit "BYMINUTE" then il (fun a l => { a with byminute := some l })
-  else if name == lit "BYSECOND" then il (fun a l => { a with bysecond := some l })
+/-- the fifteen keyword arguments a part can set -/
+inductive Field where
+  | freq | interval | count | wkst | untilV | bysetpos | bymonth | bymonthday | byyearday | byeaster
+  | byweekno | byweekday | byhour | byminute | bysecond
+  deriving DecidableEq, Repr, Inhabited
+
+/-- one assignment `rrkwargs[key] = v` -/
+inductive Update where
+  | freq (v : Int) | interval (v : Int) | count (v : Int) | wkst (v : Int) | untilV (t : List Char)
+  | bysetpos (l : List Int) | bymonth (l : List Int) | bymonthday (l : List Int) | byyearday (l : List Int)
+  | byeaster (l : List Int) | byweekno (l : List Int) | byweekday (l : List WDay) | byhour (l : List Int)
+  | byminute (l : List Int) | bysecond (l : List Int)
+  deriving DecidableEq, Repr, Inhabited
+
+def Update.field : Update → Field
+  | .freq _ => .freq | .interval _ => .interval | .count _ => .count | .wkst _ => .wkst | .untilV _ => .untilV
+  | .bysetpos _ => .bysetpos | .bymonth _ => .bymonth | .bymonthday _ => .bymonthday | .byyearday _ => .byyearday
+  | .byeaster _ => .byeaster | .byweekno _ => .byweekno | .byweekday _ => .byweekday | .byhour _ => .byhour
+  | .byminute _ => .byminute | .bysecond _ => .bysecond
+
+/-- `rrkwargs[key] = v` (a later assignment to the same key overwrites) -/
+def Update.apply (u : Update) (a : RArgs) : RArgs :=
+  match u with
+  | .freq v => { a with freq := some v }
+  | .interval v => { a with interval := some v }
+  | .count v => { a with count := some v }
+  | .wkst v => { a with wkst := some v }
+  | .untilV t => { a with untilV := some t }
+  | .bysetpos l => { a with bysetpos := some l }
+  | .bymonth l => { a with bymonth := some l }
+  | .bymonthday l => { a with bymonthday := some l }
+  | .byyearday l => { a with byyearday := some l }
+  | .byeaster l => { a with byeaster := some l }
+  | .byweekno l => { a with byweekno := some l }
+  | .byweekday l => { a with byweekday := some l }
+  | .byhour l => { a with byhour := some l }
+  | .byminute l => { a with byminute := some l }
+  | .bysecond l => { a with bysecond := some l }
+
+/-- dispatch of `getattr(self, "_handle_" + name)`: which assignment the handler makes;
+    `.error .AttributeError` = unknown name -/
+def handleU (name value : List Char) : Py.R Update :=
+  if name == lit "INTERVAL" then do let v ← int! value; .ok (.interval v)
+  else if name == lit "COUNT" then do let v ← int! value; .ok (.count v)
+  else if name == lit "BYSETPOS" then do let l ← intList value; .ok (.bysetpos l)
+  else if name == lit "BYMONTH" then do let l ← intList value; .ok (.bymonth l)
+  else if name == lit "BYMONTHDAY" then do let l ← intList value; .ok (.bymonthday l)
+  else if name == lit "BYYEARDAY" then do let l ← intList value; .ok (.byyearday l)
+  else if name == lit "BYEASTER" then do let l ← intList value; .ok (.byeaster l)
+  else if name == lit "BYWEEKNO" then do let l ← intList value; .ok (.byweekno l)
+  else if name == lit "BYHOUR" then do let l ← intList value; .ok (.byhour l)
+  else if name == lit "BYMINUTE" then do let l ← intList value; .ok (.byminute l)
+  else if name == lit "BYSECOND" then do let l ← intList value; .ok (.bysecond l)
   else if name == lit "FREQ" then
     match lookup freqMap value with
-    | some f => .ok { a with freq := some f }
+    | some f => .ok (.freq f)
     | none => .error .KeyError
-  else if name == lit "UNTIL" then .ok { a with untilV := some value }
+  else if name == lit "UNTIL" then .ok (.untilV value)
   else if name == lit "WKST" then
     match lookup weekdayMap value with
-    | some k => .ok { a with wkst := some k }
+    | some k => .ok (.wkst k)
     | none => .error .KeyError
   else if name == lit "BYWEEKDAY" || name == lit "BYDAY" then do
     let l ← (splitOnChar ',' value).mapM parseWDay
-    .ok { a with byweekday := some l }
+    .ok (.byweekday l)
   else .error .AttributeError
+
+def handle (a : RArgs) (name value : List Char) : Py.R RArgs :=
+  match handleU name value with
+  | .ok u => .ok (u.apply a)
+  | .error e => .error e
 
 /-- the loop body of `_parse_rfc_rrule`: `name, value = pair.split('=')`, upper, dispatch with the
     exception mapping (AttributeError → ValueError, KeyError/ValueError → ValueError) -/
